@@ -51,71 +51,106 @@ Proof. reflexivity. Qed.
 Lemma step_apply_via_l s r i :
   snd (step s (ApplyVia r i)) = nth_error (invs s) i /\
   cur (fst (step s (ApplyVia r i))) = cur s /\ stack (fst (step s (ApplyVia r i))) = stack s /\
-  invs (fst (step s (ApplyVia r i))) = invs s.
+  invs (fst (step s (ApplyVia r i))) = invs s /\ presets (fst (step s (ApplyVia r i))) = presets s.
 Proof.
-  cbn [step]. destruct (nth_error (invs s) i) as [c|]; [|auto].
-  destruct r as [| |fn|]; cbn; auto.
+  cbn [step]. destruct (nth_error (invs s) i) as [c|]; [|repeat split; auto].
+  destruct r as [| |fn|]; cbn; repeat split; auto;
   destruct (jit_lookup cfg_eqb fn c (jcache s)) as [c'|] eqn:E; cbn; auto.
   apply jit_lookup_sound_l in E; [subst; auto|]. intros a b H. now apply cfg_eqb_sound_l.
 Qed.
 
 Lemma step_derive_l s d i :
-  cur (fst (step s (Derive d i))) = cur s /\ stack (fst (step s (Derive d i))) = stack s.
+  cur (fst (step s (Derive d i))) = cur s /\ stack (fst (step s (Derive d i))) = stack s /\
+  presets (fst (step s (Derive d i))) = presets s.
 Proof. cbn [step]. destruct (nth_error (invs s) i); cbn; auto. Qed.
 
-(* The open blocks ks (innermost first) explain the variable and the token stack. *)
-Inductive Inv (base : cfg) (st0 : list cfg) : cfg -> list cfg -> list kw -> Prop :=
-| Inv0 : Inv base st0 base st0 []
-| InvS c st ks k : Inv base st0 c st ks -> Inv base st0 (replace c k) (c :: st) (k :: ks).
+(* The open blocks ks (innermost first) explain the variable and the token stack, given the presets. *)
+Inductive Inv (ps : list cfg) (base : cfg) (st0 : list cfg) : cfg -> list cfg -> list blk -> Prop :=
+| Inv0 : Inv ps base st0 base st0 []
+| InvK c st ks k : Inv ps base st0 c st ks -> Inv ps base st0 (replace c k) (c :: st) (BKw k :: ks)
+| InvP c st ks i p : Inv ps base st0 c st ks -> nth_error ps i = Some p ->
+    Inv ps base st0 p (c :: st) (BPre i :: ks).
 
-Lemma Inv_cur base st0 c st ks :
-  Inv base st0 c st ks -> c = fold_left replace (rev ks) base.
+Lemma Inv_cur ps base st0 c st ks :
+  Inv ps base st0 c st ks -> c = active ps base ks.
 Proof.
-  induction 1 as [|c st ks k H IH]; [reflexivity|].
-  cbn [rev]. rewrite fold_left_app. cbn [fold_left]. now rewrite <- IH.
+  induction 1 as [|c st ks k H IH|c st ks i p H IH Hn]; cbn [active].
+  - reflexivity.
+  - now rewrite <- IH.
+  - now rewrite Hn.
 Qed.
 
-Lemma Inv_nil base st0 c st : Inv base st0 c st [] -> c = base /\ st = st0.
+Lemma Inv_nil ps base st0 c st : Inv ps base st0 c st [] -> c = base /\ st = st0.
 Proof. inversion 1; auto. Qed.
 
+Lemma Inv_cons_inv ps base st0 c st b ks :
+  Inv ps base st0 c st (b :: ks) -> exists c' st', st = c' :: st' /\ Inv ps base st0 c' st' ks.
+Proof. intros H. inversion H; subst; eauto. Qed.
+
+(* presets are only ever appended: what explains the state keeps explaining it *)
+Lemma Inv_mono ps x base st0 c st ks :
+  Inv ps base st0 c st ks -> Inv (ps ++ x) base st0 c st ks.
+Proof.
+  induction 1 as [|c st ks k H IH|c st ks i p H IH Hn]; [constructor|constructor; exact IH|].
+  econstructor; [exact IH|]. rewrite nth_error_app1; [exact Hn|].
+  apply nth_error_Some. rewrite Hn. discriminate.
+Qed.
+
 Lemma track_inv base st0 h : forall s ks ks',
-  track h ks = Some ks' ->
-  Inv base st0 (cur s) (stack s) ks ->
-  Inv base st0 (cur (final s h)) (stack (final s h)) ks'.
+  track (length (presets s)) h ks = Some ks' ->
+  Inv (presets s) base st0 (cur s) (stack s) ks ->
+  Inv (presets (final s h)) base st0 (cur (final s h)) (stack (final s h)) ks'.
 Proof.
   induction h as [|e h IH]; intros s ks ks' Ht HI.
   - cbn in Ht. inversion Ht; subst. exact HI.
   - rewrite final_cons. destruct e; cbn [track] in Ht.
     + eapply IH; [exact Ht|]. cbn. constructor. exact HI.
-    + destruct ks as [|k ks0]; [discriminate|]. eapply IH; [exact Ht|].
-      inversion HI as [|c st ks1 k1 H1 Hc Hs Hk]; subst. cbn [step]. rewrite <- Hs. cbn. exact H1.
-    + destruct ks as [|k ks0]; [discriminate|]. eapply IH; [exact Ht|].
-      inversion HI as [|c st ks1 k1 H1 Hc Hs Hk]; subst. cbn [step]. rewrite <- Hs. cbn. exact H1.
+    + destruct ks as [|k ks0]; [discriminate|].
+      destruct (Inv_cons_inv _ _ _ _ _ _ _ HI) as (c & st & Hs & H1).
+      cbn [step]. rewrite Hs. cbn [fst]. eapply IH; [exact Ht|exact H1].
+    + destruct ks as [|k ks0]; [discriminate|].
+      destruct (Inv_cons_inv _ _ _ _ _ _ _ HI) as (c & st & Hs & H1).
+      cbn [step]. rewrite Hs. cbn [fst]. eapply IH; [exact Ht|exact H1].
     + eapply IH; [exact Ht|]. cbn. exact HI.
     + eapply IH; [exact Ht|]. cbn. exact HI.
     + eapply IH; [exact Ht|]. cbn. exact HI.
-    + eapply IH; [exact Ht|]. destruct (step_derive_l s d i) as [-> ->]. exact HI.
-    + eapply IH; [exact Ht|]. destruct (step_apply_via_l s r i) as (_ & -> & -> & _). exact HI.
+    + destruct (step_derive_l s d i) as (Hc & Hs & Hp).
+      eapply IH; [rewrite Hp; exact Ht|]. rewrite Hc, Hs, Hp. exact HI.
+    + destruct (step_apply_via_l s r i) as (_ & Hc & Hs & _ & Hp).
+      eapply IH; [rewrite Hp; exact Ht|]. rewrite Hc, Hs, Hp. exact HI.
+    + eapply IH; [cbn; rewrite app_length, Nat.add_1_r; exact Ht|]. cbn. apply Inv_mono. exact HI.
+    + destruct (Nat.ltb i (length (presets s))) eqn:Ei; [|discriminate].
+      apply Nat.ltb_lt in Ei. destruct (nth_error (presets s) i) as [p|] eqn:En.
+      * cbn [step]. rewrite En. cbn [fst]. eapply IH; [exact Ht|]. cbn. econstructor; eassumption.
+      * apply nth_error_None in En. lia.
 Qed.
 
 (* leaving every block restores exactly what was active before it, at any depth,
-   through normal and exceptional exits alike *)
+   through normal and exceptional exits alike, whether the block was opened by `with Config(...)`
+   or by entering a Config object built elsewhere *)
 Lemma restore_l s h :
-  well_nested h -> cur (final s h) = cur s /\ stack (final s h) = stack s.
+  well_nested (length (presets s)) h -> cur (final s h) = cur s /\ stack (final s h) = stack s.
 Proof.
-  intros Hw. apply (Inv_nil (cur s) (stack s)).
+  intros Hw. apply (Inv_nil (presets (final s h)) (cur s) (stack s)).
   eapply track_inv; [exact Hw|]. constructor.
 Qed.
 
-(* inside nested blocks the active configuration is the outer one overridden level by level *)
+(* inside nested blocks the active configuration is explained by the open blocks *)
 Lemma innermost_l s h ks :
-  track h [] = Some ks ->
-  cur (final s h) = fold_left replace (rev ks) (cur s).
+  track (length (presets s)) h [] = Some ks ->
+  cur (final s h) = active (presets (final s h)) (cur s) ks.
 Proof.
   intros Ht. eapply Inv_cur. eapply track_inv; [exact Ht|]. constructor.
 Qed.
 
-Lemma ends_with_defaults_l h : well_nested h -> cur (final init h) = default_cfg.
+(* with inline blocks only: the outer configuration overridden level by level *)
+Lemma active_kw_l ps base ks : active ps base (map BKw ks) = fold_left replace (rev ks) base.
+Proof.
+  induction ks as [|k ks IH]; [reflexivity|].
+  cbn [map active rev]. rewrite fold_left_app. cbn [fold_left]. now rewrite IH.
+Qed.
+
+Lemma ends_with_defaults_l h : well_nested 0 h -> cur (final init h) = default_cfg.
 Proof. intros H. now destruct (restore_l init h H). Qed.
 
 (* a Read observes the variable *)
@@ -138,7 +173,9 @@ Proof.
       - exists []. cbn. now rewrite app_nil_r.
       - cbn [step]. destruct (nth_error (invs s) i); cbn; [eexists; reflexivity|].
         exists []. now rewrite app_nil_r.
-      - exists []. destruct (step_apply_via_l s r i) as (_ & _ & _ & ->). now rewrite app_nil_r. }
+      - exists []. destruct (step_apply_via_l s r i) as (_ & _ & _ & -> & _). now rewrite app_nil_r.
+      - exists []. cbn. now rewrite app_nil_r.
+      - exists []. cbn [step]. destruct (nth_error (presets s) i); cbn; now rewrite app_nil_r. }
     destruct H1 as [x ->]. rewrite <- app_assoc. eexists; reflexivity.
 Qed.
 
@@ -157,7 +194,7 @@ Proof.
   assert (Hs2 : s2 = final s (h1 ++ NewInverse :: h2)) by (unfold final; now rewrite E).
   rewrite Hs2, final_app, final_cons. cbn [step fst].
   set (s1 := final s h1) in *.
-  destruct (invs_mono (mkT (cur s1) (stack s1) (invs s1 ++ [cur s1]) (jcache s1)) h2) as [ex Hex].
+  destruct (invs_mono (mkT (cur s1) (stack s1) (invs s1 ++ [cur s1]) (jcache s1) (presets s1)) h2) as [ex Hex].
   rewrite Hex. cbn [invs]. rewrite <- app_assoc. rewrite nth_error_app2 by (subst i; lia).
   subst i. now rewrite Nat.sub_diag.
 Qed.
@@ -184,7 +221,7 @@ Proof.
     assert (Hl : forall e0, In e0 l -> touches t e0 = true -> match e0 with Ev _ _ => True | _ => False end)
       by (intros e0 Hi; apply Hev; now right).
     specialize (IH g1 t Hl). rewrite Er in IH. cbn [fst snd] in IH. destruct IH as [IH1 IH2].
-    destruct e as [t' e|t1 t2|t1]; cbn [gstep] in Eg.
+    destruct e as [t' e|t1 t2|t1|t1 t2]; cbn [gstep] in Eg.
     + destruct (step (g t') e) as [s1 o1] eqn:Es. inversion Eg; subst g1 o; clear Eg.
       cbn [project obs_of]. destruct (Nat.eqb t' t) eqn:Et.
       * apply Nat.eqb_eq in Et; subst t'. rewrite upd_same in IH1, IH2.
@@ -202,6 +239,11 @@ Proof.
       { intros ->. specialize (Hev (Spawn t) (or_introl eq_refl)). cbn in Hev.
         rewrite Nat.eqb_refl in Hev. exact (Hev eq_refl). }
       rewrite upd_other in IH1, IH2 by congruence. auto.
+    + inversion Eg; subst g1 o; clear Eg. cbn [project].
+      assert (Hne : t2 <> t).
+      { intros ->. specialize (Hev (Hand t1 t) (or_introl eq_refl)). cbn in Hev.
+        rewrite Nat.eqb_refl in Hev. exact (Hev eq_refl). }
+      rewrite upd_other in IH1, IH2 by congruence. auto.
 Qed.
 
 (* a forked context / spawned thread starts from a copy / from the defaults and then evolves alone *)
@@ -209,11 +251,16 @@ Lemma fork_copy_l g t t' : cur (fst (gstep g (Fork t t')) t') = cur (g t).
 Proof. cbn. now rewrite upd_same. Qed.
 Lemma spawn_default_l g t : cur (fst (gstep g (Spawn t)) t) = default_cfg.
 Proof. cbn. now rewrite upd_same. Qed.
+Lemma hand_default_l g t t' :
+  cur (fst (gstep g (Hand t t')) t') = default_cfg /\ stack (fst (gstep g (Hand t t')) t') = [] /\
+  presets (fst (gstep g (Hand t t')) t') = presets (g t).
+Proof. cbn. now rewrite upd_same. Qed.
 (* an event of another thread never changes this thread's state *)
 Lemma frame_l g e t : touches t e = false -> fst (gstep g e) t = g t.
 Proof.
-  destruct e as [t' e|t1 t2|t1]; cbn; intros H.
+  destruct e as [t' e|t1 t2|t1|t1 t2]; cbn; intros H.
   - destruct (step (g t') e). cbn. apply upd_other. intros ->. now rewrite Nat.eqb_refl in H.
+  - apply upd_other. intros ->. now rewrite Nat.eqb_refl in H.
   - apply upd_other. intros ->. now rewrite Nat.eqb_refl in H.
   - apply upd_other. intros ->. now rewrite Nat.eqb_refl in H.
 Qed.
@@ -369,7 +416,9 @@ Proof.
         assert (Hnone : nth_error (invs s1) i = None).
         { apply nth_error_None. rewrite <- HL. now apply nth_error_None. }
         now rewrite Hnone.
-    + apply Hsame. now destruct (step_apply_via_l s1 r i) as (_ & _ & _ & ->).
+    + apply Hsame. now destruct (step_apply_via_l s1 r i) as (_ & _ & _ & -> & _).
+    + apply Hsame. reflexivity.
+    + apply Hsame. cbn [step]. destruct (nth_error (presets s1) i); reflexivity.
 Qed.
 
 (* The clause at full strength: object j, which stems from the creation event at position p of the
@@ -407,3 +456,114 @@ Lemma inv_inv_is_new_l s h i c :
   nth_error (invs (final s h)) i = Some c ->
   invs (final s (h ++ [Derive DInvInv i])) = invs (final s h) ++ [cur (final s h)].
 Proof. intros Hi. rewrite final_snoc. cbn [step]. rewrite Hi. reflexivity. Qed.
+
+(* ---- Config objects built at one place and entered at another ("presets") ------------------------ *)
+
+Lemma presets_mono s h : exists extra, presets (final s h) = presets s ++ extra.
+Proof.
+  revert s; induction h as [|e h IH]; intros s.
+  - exists []. unfold final; cbn. now rewrite app_nil_r.
+  - rewrite final_cons. destruct (IH (fst (step s e))) as [ex Hex]. rewrite Hex.
+    assert (H1 : exists x, presets (fst (step s e)) = presets s ++ x).
+    { destruct e.
+      - exists []. cbn. now rewrite app_nil_r.
+      - exists []. cbn [step]. destruct (stack s); cbn; now rewrite app_nil_r.
+      - exists []. cbn [step]. destruct (stack s); cbn; now rewrite app_nil_r.
+      - exists []. cbn. now rewrite app_nil_r.
+      - exists []. cbn. now rewrite app_nil_r.
+      - exists []. cbn. now rewrite app_nil_r.
+      - exists []. destruct (step_derive_l s d i) as (_ & _ & ->). now rewrite app_nil_r.
+      - exists []. destruct (step_apply_via_l s r i) as (_ & _ & _ & _ & ->). now rewrite app_nil_r.
+      - eexists. cbn. reflexivity.
+      - exists []. cbn [step]. destruct (nth_error (presets s) i); cbn; now rewrite app_nil_r. }
+    destruct H1 as [x ->]. rewrite <- app_assoc. eexists; reflexivity.
+Qed.
+
+(* Config.__init__: the object built after h1 holds replace(configuration active at BUILD, kwargs),
+   whatever happens afterwards (h2 arbitrary) *)
+Lemma preset_built_l s h1 k h2 :
+  nth_error (presets (final s (h1 ++ Build k :: h2))) (length (presets (final s h1)))
+  = Some (replace (cur (final s h1)) k).
+Proof.
+  rewrite final_app, final_cons. cbn [step fst]. set (s1 := final s h1).
+  destruct (presets_mono (mkT (cur s1) (stack s1) (invs s1) (jcache s1)
+                              (presets s1 ++ [replace (cur s1) k])) h2) as [ex Hex].
+  rewrite Hex. cbn [presets]. rewrite <- app_assoc. rewrite nth_error_app2 by lia.
+  now rewrite Nat.sub_diag.
+Qed.
+
+(* Entering preset i after h makes ITS instance active (whatever was active: nothing is inherited at
+   ENTER time); it is active again whenever the blocks opened inside are closed; and leaving the
+   block - normally or by an exception - restores the configuration that was active when the block
+   was ENTERED (cur (final s h)), wherever and whenever the object was BUILT. *)
+Lemma enter_preset_l s h i c h' x :
+  nth_error (presets (final s h)) i = Some c -> (x = Exit \/ x = ExitExc) ->
+  well_nested (length (presets (final s h))) h' ->
+  cur (final s (h ++ [EnterP i])) = c /\
+  cur (final s (h ++ EnterP i :: h')) = c /\
+  cur (final s (h ++ EnterP i :: h' ++ [x])) = cur (final s h) /\
+  stack (final s (h ++ EnterP i :: h' ++ [x])) = stack (final s h).
+Proof.
+  intros Hn Hx Hw. set (s1 := final s h) in *.
+  assert (E1 : fst (step s1 (EnterP i)) = mkT c (cur s1 :: stack s1) (invs s1) (jcache s1) (presets s1))
+    by (cbn [step]; rewrite Hn; reflexivity).
+  split; [|split].
+  - rewrite final_snoc. fold s1. now rewrite E1.
+  - rewrite final_app, final_cons. fold s1. rewrite E1.
+    now destruct (restore_l (mkT c (cur s1 :: stack s1) (invs s1) (jcache s1) (presets s1)) h' Hw).
+  - replace (h ++ EnterP i :: h' ++ [x]) with ((h ++ EnterP i :: h') ++ [x])
+      by (rewrite <- app_assoc; reflexivity).
+    rewrite final_snoc. rewrite final_app, final_cons. fold s1. rewrite E1.
+    destruct (restore_l (mkT c (cur s1 :: stack s1) (invs s1) (jcache s1) (presets s1)) h' Hw) as [_ Hs].
+    cbn [stack] in Hs. destruct Hx as [-> | ->]; cbn [step]; rewrite Hs; cbn; auto.
+Qed.
+
+(* the same for an inline block `with Config(k)` (object built where it is entered) *)
+Lemma enter_inline_l s h k h' x :
+  (x = Exit \/ x = ExitExc) -> well_nested (length (presets (final s h))) h' ->
+  cur (final s (h ++ [Enter k])) = replace (cur (final s h)) k /\
+  cur (final s (h ++ Enter k :: h')) = replace (cur (final s h)) k /\
+  cur (final s (h ++ Enter k :: h' ++ [x])) = cur (final s h) /\
+  stack (final s (h ++ Enter k :: h' ++ [x])) = stack (final s h).
+Proof.
+  intros Hx Hw. set (s1 := final s h) in *.
+  split; [|split].
+  - rewrite final_snoc. fold s1. reflexivity.
+  - rewrite final_app, final_cons. fold s1. cbn [step fst].
+    now destruct (restore_l (mkT (replace (cur s1) k) (cur s1 :: stack s1) (invs s1) (jcache s1) (presets s1)) h' Hw).
+  - replace (h ++ Enter k :: h' ++ [x]) with ((h ++ Enter k :: h') ++ [x])
+      by (rewrite <- app_assoc; reflexivity).
+    rewrite final_snoc. rewrite final_app, final_cons. fold s1. cbn [step fst].
+    destruct (restore_l (mkT (replace (cur s1) k) (cur s1 :: stack s1) (invs s1) (jcache s1) (presets s1)) h' Hw) as [_ Hs].
+    cbn [stack] in Hs. destruct Hx as [-> | ->]; cbn [step]; rewrite Hs; cbn; auto.
+Qed.
+
+(* a lazy inverse created inside a preset block captures the preset's instance *)
+Lemma capture_in_preset_l s h i c h2 :
+  nth_error (presets (final s h)) i = Some c ->
+  let j := length (invs (final s h)) in
+  observe s (h ++ EnterP i :: NewInverse :: h2 ++ [ApplyInverse j]) =
+  observe s (h ++ EnterP i :: NewInverse :: h2) ++ [Some c].
+Proof.
+  intros Hn j.
+  assert (Hc : cur (final s (h ++ [EnterP i])) = c /\ invs (final s (h ++ [EnterP i])) = invs (final s h)).
+  { rewrite final_snoc. cbn [step]. rewrite Hn. cbn. auto. }
+  destruct Hc as [Hc Hi].
+  pose proof (capture_l s (h ++ [EnterP i]) h2) as H. cbn zeta in H. rewrite Hc, Hi in H.
+  rewrite <- !app_assoc in H. exact H.
+Qed.
+
+(* Re-entry: the stack discipline does not care whether two frames come from the same Config object.
+   Entering preset i again while its own block is open is one more frame: the inner exit gives back
+   the preset's instance, the outer exit the configuration active before the outer enter. *)
+Lemma reenter_l s h i c x y :
+  nth_error (presets (final s h)) i = Some c -> (x = Exit \/ x = ExitExc) -> (y = Exit \/ y = ExitExc) ->
+  cur (final s (h ++ [EnterP i; EnterP i])) = c /\
+  cur (final s (h ++ [EnterP i; EnterP i; x])) = c /\
+  cur (final s (h ++ [EnterP i; EnterP i; x; y])) = cur (final s h) /\
+  stack (final s (h ++ [EnterP i; EnterP i; x; y])) = stack (final s h).
+Proof.
+  intros Hn Hx Hy. rewrite !final_app. set (s1 := final s h) in *.
+  rewrite !final_cons. cbn [step]. rewrite Hn. cbn [fst presets]. rewrite Hn. cbn [fst].
+  destruct Hx as [-> | ->], Hy as [-> | ->]; cbn; auto.
+Qed.
